@@ -1,6 +1,7 @@
 import Dashu.Proofs.Int.Div
 import Dashu.Proofs.Int.NumModular
 import Dashu.Proofs.Int.DivMemory
+import Dashu.Proofs.Int.PrimDiv
 import Dashu.Props.GenInt
 /-
   C02 — Integer division obeys the division identity with documented conventions; division
@@ -22,7 +23,8 @@ import Dashu.Props.GenInt
   * §5 ConstDivisor = plain division;
   * §6 the num-modular dividers (Möller–Granlund 2-by-1, 3-by-2, reciprocals) mirrored and proved
         equal to floor division: the division model's contract parameters are discharged;
-  * §7 `div::memory_requirement_exact` suffices for every scratch allocation of a division.
+  * §7 `div::memory_requirement_exact` suffices for every scratch allocation of a division;
+  * §8 the primitive kernels of base/src/ring/div_rem.rs on every machine integer type.
 -/
 namespace Dashu.Props.C02
 open Dashu Dashu.Model Dashu.Model.Div Dashu.Gen Dashu.GluePrelude
@@ -682,6 +684,37 @@ theorem div_scratch_memory_suffices (lhsLen rhsLen : Nat) (h : rhsLen ≤ lhsLen
     memDivide lhsLen rhsLen = .ok () :=
   memDivide_ok lhsLen rhsLen h h2
 
+-- ================================================================== §8 primitive kernels (base/src/ring/div_rem.rs)
+
+/-- `DivRem`, `DivRemAssign`, `DivEuclid`, `RemEuclid`, `DivRemEuclid` on every machine integer
+    type (any width, signed or not), operands in range: a zero divisor is Rust's divide-by-zero
+    panic in all five -/
+theorem prim_zero_divisor (t : PrimDiv.PTy) (a : Int) :
+    PrimDiv.divRem t a 0 = .error PrimDiv.divZero ∧ PrimDiv.divRemAssign t a 0 = .error PrimDiv.divZero ∧
+    PrimDiv.divEuclid t a 0 = .error PrimDiv.divZero ∧ PrimDiv.remEuclid t a 0 = .error PrimDiv.divZero ∧
+    PrimDiv.divRemEuclid t a 0 = .error PrimDiv.divZero :=
+  PrimDiv.zero_divisor t a
+
+/-- `MIN / −1` of a signed type is Rust's overflow panic in all five (never a wrapped value) -/
+theorem prim_min_neg_one (t : PrimDiv.PTy) (hs : t.signed = true) (hlo : t.lo ≠ 0) :
+    PrimDiv.divRem t t.lo (-1) = .error PrimDiv.overflow ∧
+    PrimDiv.divRemAssign t t.lo (-1) = .error PrimDiv.overflow ∧
+    PrimDiv.divEuclid t t.lo (-1) = .error PrimDiv.overflow ∧
+    PrimDiv.remEuclid t t.lo (-1) = .error PrimDiv.overflow ∧
+    PrimDiv.divRemEuclid t t.lo (-1) = .error PrimDiv.overflow :=
+  PrimDiv.min_neg_one t hs hlo
+
+/-- everywhere else: truncating forms = `Int.tdiv/tmod`, Euclidean forms = `Int` `/ %`; every
+    result is representable; the `q ± 1`, `r ± rhs` of `div_rem_euclid` never overflow -/
+theorem prim_kernels_exact (t : PrimDiv.PTy) (a b : Int) (ha : t.InRange a) (hbr : t.InRange b)
+    (hb : b ≠ 0) (hex : ¬ (t.signed ∧ a = t.lo ∧ b = -1)) :
+    PrimDiv.divRem t a b = .ok (Int.tdiv a b, Int.tmod a b) ∧
+    PrimDiv.divRemAssign t a b = .ok (Int.tdiv a b, Int.tmod a b) ∧
+    PrimDiv.divEuclid t a b = .ok (a / b) ∧ PrimDiv.remEuclid t a b = .ok (a % b) ∧
+    PrimDiv.divRemEuclid t a b = .ok (a / b, a % b) ∧
+    t.InRange (Int.tdiv a b) ∧ t.InRange (Int.tmod a b) ∧ t.InRange (a / b) ∧ t.InRange (a % b) :=
+  PrimDiv.kernels_exact t a b ha hbr hb hex
+
 -- ================================================================== non-vacuity
 
 -- a 3-word canonical dividend and a 3-word canonical divisor with a non-normalised top word
@@ -716,5 +749,8 @@ example : ((ConstDiv.new 64 (.small 0xc000000000000010)).toOption.bind
 example : NumModular.div3by2 64 (2 ^ 127 + 1) (NumModular.invertDoubleWord 64 (2 ^ 127 + 1)) (2 ^ 64 - 1) (2 ^ 127)
     = ((2 ^ 64 - 1 + 2 ^ 64 * 2 ^ 127) / (2 ^ 127 + 1), (2 ^ 64 - 1 + 2 ^ 64 * 2 ^ 127) % (2 ^ 127 + 1)) := by
   decide +kernel
+
+-- `i8`: −128 and −3 are in range and the Euclidean fix-up path (negative remainder, negative divisor) runs
+example : PrimDiv.divRemEuclid ⟨8, true⟩ (-128) (-3) = .ok (43, 1) := by decide
 
 end Dashu.Props.C02
